@@ -131,6 +131,9 @@ def attached_under(op, region):
 
 
 # ------------------------------------------------------------------------------------------------ case state
+DRIVER_FILES = ("xdsl/pattern_rewriter.py", "xdsl/utils/worklist.py", "xdsl/rewriter.py", "xdsl/builder.py")
+
+
 class Diverged(Exception):
     pass
 
@@ -160,6 +163,7 @@ class Case:
         self.api_calls = 0
         self.flag_explained = False
         self.hook_reported_change = 0
+        self.inv_mutated = False
         self.hook_untruthful = 0
 
     def number(self, op):
@@ -208,6 +212,13 @@ class Act:
             c.flag_explained = True
             c.violate(f"{api}:flag-not-set", f"rewriter.{api} changed IR but has_done_action is False afterwards",
                       {"api": api})
+        elif c.inv_mutated and not rw.has_done_action:
+            # an earlier rewriter call of this match mutated the IR and had set the flag: this call assigned it away
+            c.flag_explained = True
+            c.violate(f"{api}:flag-cleared", f"rewriter.{api} (a call that changes nothing) reset has_done_action to False "
+                      f"after earlier rewriter calls of the same match ({sorted(c.acted)}) had mutated the IR", {"api": api})
+        if mutating:
+            c.inv_mutated = True
         seen = set()
         for k, o, role in expected:
             if (k, id(o)) in got:
@@ -300,6 +311,10 @@ class Act:
             if not any(k == "blk" and o is blk for k, o, _x in c.events[e0:]):
                 c.violate("create_block:created-block-not-notified", "block creation handler was not called")
         return blk
+
+    def noop_call(self, rw, api, call):
+        """A rewriter call that changes nothing and owes no notification (must leave the action flag alone)."""
+        return self._run(api, rw, [], call, mutating=False)
 
     def notify(self, rw, op):
         return self._run("notify_op_modified", rw, [("mod", op, "op")], lambda: rw.notify_op_modified(op))
@@ -511,6 +526,58 @@ class InlineDetachedBlock(P):
             self.A.notify(rw, op)
 
 
+TAILS = ["inline_empty_detached_block", "insert_nothing", "rauw_of_unused_value", "block_argument_round_trip",
+         "replace_uses_with_if_never", "rauw_same_value", "notify_then_inline_empty"]
+
+
+class TailNoop(P):
+    """Several rewriter calls in one match: a real mutation (replace by a lower level op) followed by a last call that
+    changes nothing. Any rewriter method that assigns (rather than sets) has_done_action is exposed."""
+
+    def match_and_rewrite(self, op, rw):
+        if kind(op) != "tn" or level(op) <= 0:
+            return
+        A = self.A
+        tail = TAILS[(level(op) + 2 * len(op.results) + 3 * len(op.operands)) % len(TAILS)]
+        if tail == "notify_then_inline_empty":
+            # in-place modification as the real mutation
+            set_level(op, level(op) - 1)
+            A.notify(rw, op)
+            A.noop_call(rw, "inline_block", lambda: rw.inline_block(Block(), InsertPoint.before(op)))
+            self.c.stats["tail:" + tail] += self.c.monitoring
+            return
+        new = mk("tn", op.operands, len(op.results), level(op) - 1, [Region(Block())])
+        A.replace(rw, op, new)
+        if tail == "inline_empty_detached_block":
+            A.noop_call(rw, "inline_block", lambda: rw.inline_block(Block(), InsertPoint.before(new)))
+        elif tail == "insert_nothing":
+            A.noop_call(rw, "insert", lambda: rw.insert([], InsertPoint.before(new)))
+        elif tail == "rauw_of_unused_value":
+            spare = new.regions[0].blocks[0].insert_arg(i32, 0)  # never used
+            A.noop_call(rw, "replace_all_uses_with", lambda: rw.replace_all_uses_with(spare, spare.block.args[0]))
+            other = mk("x", (), 1, 0)  # detached, unused result
+            A.noop_call(rw, "replace_all_uses_with", lambda: rw.replace_all_uses_with(other.results[0], spare))
+        elif tail == "block_argument_round_trip":
+            b = new.regions[0].blocks[0]
+            a = A.insert_block_argument(rw, b, 0, i32)
+            A.erase_block_argument(rw, a)
+        elif tail == "replace_uses_with_if_never":
+            if new.results:
+                v = new.results[0]
+                spare = new.regions[0].blocks[0].insert_arg(i32, 0)
+                A.noop_call(rw, "replace_uses_with_if", lambda: rw.replace_uses_with_if(v, spare, lambda u: False))
+            else:
+                A.noop_call(rw, "insert", lambda: rw.insert(()))
+        elif tail == "rauw_same_value":
+            if new.results:
+                v = new.results[0]
+                A.noop_call(rw, "replace_all_uses_with", lambda: rw.replace_all_uses_with(v, v))
+                A.noop_call(rw, "replace_uses_with_if", lambda: rw.replace_uses_with_if(v, v, lambda u: True))
+            else:
+                A.noop_call(rw, "inline_block", lambda: rw.inline_block(Block(), InsertPoint.after(new)))
+        self.c.stats["tail:" + tail] += self.c.monitoring
+
+
 class EraseNext(P):
     def match_and_rewrite(self, op, rw):
         if kind(op) == "eo" and (n := op.next_op) is not None and kind(n) in ("dead", "x") and unused(n):
@@ -533,14 +600,14 @@ class LowerDef(P):
 PATTERNS = [EraseDead, Lower, LowerTwo, Forward, FoldIfOperandLow, ModifyInPlace, InsertOnce, InlineRegion,
             DropBlockArg, DropBlockArgUnsafe, RauwOperand, ReplaceUsesIf, RetypeResult, RetypeBlockArg,
             InlineRegionBlocks, MoveRegion, MultiReplaceNone, InsertBlockArg, UnsafeEraseChain, CreateBlock,
-            InlineDetachedBlock, EraseNext, EraseParent, LowerDef, CreateBlockOnly]
+            InlineDetachedBlock, EraseNext, EraseParent, LowerDef, CreateBlockOnly, TailNoop]
 PATTERN_BY_NAME = {p.__name__: p for p in PATTERNS}
 KIND_OF = {"EraseDead": "dead", "Lower": "a", "LowerTwo": "b", "Forward": "id", "FoldIfOperandLow": "c",
            "ModifyInPlace": "m", "InsertOnce": "i", "InlineRegion": "r", "DropBlockArg": "g", "DropBlockArgUnsafe": "gx",
            "RauwOperand": "u", "ReplaceUsesIf": "w", "RetypeResult": "t", "RetypeBlockArg": "tb",
            "InlineRegionBlocks": "ir", "MoveRegion": "mv", "MultiReplaceNone": "n", "InsertBlockArg": "ga",
            "UnsafeEraseChain": "ue", "CreateBlock": "cb", "InlineDetachedBlock": "ib", "EraseNext": "eo",
-           "EraseParent": "ep", "LowerDef": "ld", "CreateBlockOnly": "cbo"}
+           "EraseParent": "ep", "LowerDef": "ld", "CreateBlockOnly": "cbo", "TailNoop": "tn"}
 REGION_KINDS = ("r", "g", "gx", "tb", "ir", "mv", "ga", "cb", "cbo")
 INERT = ["x", "x", "p"]
 
@@ -786,6 +853,7 @@ class Mon(RewritePattern):
         c.explained = set()
         c.acted = set()
         c.flag_explained = False
+        c.inv_mutated = False
         c.current_pattern = "<applier>"
         self.inner.match_and_rewrite(op, rw)
         c1 = canon_ir(c.module)
@@ -961,20 +1029,27 @@ def run_case(seed, size, want_text=False):
             c.violate("driver-diverges", f"more than {c.cap} pattern invocations on a module of {n0} ops with a "
                       f"terminating pattern set ({c.stats['mutating_invocations']} of them mutating)")
         else:
-            # An exception that passed through the monitoring pattern / pattern library is a harness matter (or an API
-            # refusing a call of ours): crash the shard. One raised by the driver itself, outside any pattern, is an
-            # observation about the driver.
+            # Only an exception raised by the test pattern / monitor code itself is a harness matter (crash the shard).
+            # One raised in driver code (walker, listener handlers, worklist, rewriter, builder) is an observation about
+            # the driver, also when it propagates through a rewriter call made inside a pattern (erase/replace ->
+            # listener -> worklist). (The walker re-raises pattern exceptions with a note: the innermost frame of the
+            # traceback is still the original raise site.)
             frames = []
             tb = e.__traceback__
             while tb is not None:
                 frames.append((tb.tb_frame.f_code.co_filename, tb.tb_frame.f_code.co_qualname))
                 tb = tb.tb_next
-            if any(fn == __file__ and qn != "run_case" for fn, qn in frames):
+            in_pattern = any(fn == __file__ and qn != "run_case" for fn, qn in frames)
+            last_own = max((i for i, (fn, _q) in enumerate(frames) if fn == __file__), default=-1)
+            below = [(fn, qn) for fn, qn in frames[last_own + 1:] if fn.endswith(DRIVER_FILES)]
+            if not frames or frames[-1][0] == __file__ or not below:
                 raise
             c.diverged = True  # the walk did not complete: no return value / fixpoint to judge
             last = wl.last_item
-            where = frames[-1][1] if frames else "?"
-            if last is not None and (c.removed.get(id(last)) is last or not attached_under(last, c.region)):
+            where = below[-1][1]
+            c.stats["driver_exceptions_inside_pattern_calls" if in_pattern else "driver_exceptions_outside_patterns"] += 1
+            if (not in_pattern and last is not None
+                    and (c.removed.get(id(last)) is last or not attached_under(last, c.region))):
                 c.violate("driver-raised-on-stale-worklist-entry",
                           f"the driver popped {describe(last)}, which was removed / is no longer attached below the region, "
                           f"and raised {type(e).__name__} in {where} before invoking the pattern: {str(e)[:120]}",
